@@ -782,6 +782,9 @@ func rcases(c *core.Ctx) []rcase {
 }
 
 func run(c *core.Ctx) {
+	// generic checks (lg.Independence): re-validation of the same objects and
+	// presentation variants (map key order) of rejected transactions
+	lg.EnableChecks(c).PresentationSample = 2 // the variants for one in 2 rejected cases
 	co := &collector{m: map[string]*finding{}}
 	runLangViews(c, co)
 	cs := rcases(c)
@@ -831,8 +834,14 @@ func run(c *core.Ctx) {
 		c.Distinct(en, core.HexFull(b.tx.TxId[:]), digest(b.params.CostModels))
 		pp := b.params.For(t.era)
 		var rerr error
-		if pn, val, _ := core.Safely(func() { rerr = rule(tx, 1000, b.state, pp) }); pn {
+		if pn, val, _ := core.Safely(func() {
+			rerr = lg.Checked(t.era, tx, b.state, func() error { return rule(tx, 1000, b.state, pp) })
+		}); pn {
 			rerr = fmt.Errorf("panic: %v", val)
+		} else if rerr != nil {
+			core.Safely(func() {
+				lg.CheckPresentations(b.spec, b.tx, rerr, func(v common.Transaction) error { return rule(v, 1000, b.state, pp) })
+			})
 		}
 		accept := rerr == nil
 		hasRed := b.redNode != nil && !b.redEmpty
